@@ -12,3 +12,9 @@ Print Assumptions C19_exact.
 Theorem C19_ident_reuse_refuted : exists init h, reports (trun init h) <> s_reports (srun init h).
 Proof. exact c19_ident_reuse_refuted. Qed.
 Print Assumptions C19_ident_reuse_refuted.
+
+(* The same limit reached through threading's own registry: the _DummyThread record made for a low-level thread that asked
+   threading.current_thread() is never dropped, and a later low-level thread on the same ident is handed that object. *)
+Theorem C19_stale_dummy_refuted : exists init h, reports (trun init h) <> s_reports (srun init h).
+Proof. exact c19_stale_dummy_refuted. Qed.
+Print Assumptions C19_stale_dummy_refuted.
